@@ -467,6 +467,10 @@ func (r *Runner) ExecBlock(s Step) *BlockOutcome {
 
 // Step executes one step, updates the shadow and lets the monitors judge it.
 func (r *Runner) Step(s Step) {
+	if s.Amt == "bal" && s.A >= 0 && s.A < len(r.W.Actors) && s.V >= 0 && s.V < len(r.W.Vals) {
+		// scripted steps may ask for the current reported balance; the explicit amount is what is recorded
+		s.Amt = r.Cur.Reported(PosKey{r.W.Actors[s.A].String(), r.W.Vals[s.V].Oper.String(), s.Den}).String()
+	}
 	if r.Hist != nil {
 		r.Hist.Steps = append(r.Hist.Steps, s)
 	}
